@@ -82,6 +82,16 @@ func (c *compiler) compileImport(m *Module) error {
 }
 
 func (c *compiler) compile(o interface{}) error {
+	if t, ok := o.(*Typedef); ok {
+		if _, circular := c.typedefs[t]; circular {
+			return errors.New(SchemaPath(t) + " - typedef " + t.ident + " is defined by itself")
+		}
+		if c.typedefs == nil {
+			c.typedefs = make(map[*Typedef]struct{})
+		}
+		c.typedefs[t] = struct{}{}
+		defer delete(c.typedefs, t)
+	}
 
 	if x, ok := o.(HasTypedefs); ok {
 		for _, y := range x.Typedefs() {
@@ -412,14 +422,6 @@ func (c *compiler) findTypedef(y *Type, parent Definition, qualifiedIdent string
 	}
 
 	// this will recurse if typedef references another typedef
-	if _, circular := c.typedefs[found]; circular {
-		return nil, errors.New(SchemaPath(parent) + " - typedef " + y.ident + " is defined by itself")
-	}
-	if c.typedefs == nil {
-		c.typedefs = make(map[*Typedef]struct{})
-	}
-	c.typedefs[found] = struct{}{}
-	defer delete(c.typedefs, found)
 	if err := c.compile(found); err != nil {
 		return nil, err
 	}
